@@ -26,7 +26,7 @@ type worker struct {
 	rng   *rand.Rand
 	files []*openFile
 	log   []string
-	stats struct{ ops, quotaDenied, exhausted int }
+	stats struct{ ops, quotaDenied, exhausted, faults int }
 }
 
 func (w *worker) fail(rule, detail string) {
@@ -104,6 +104,7 @@ func (w *worker) step() {
 			w.stats.quotaDenied++
 			return
 		}
+		e.acquired(1, size, "newfile")
 		of := &openFile{f: f, m: newFileModel(id, size, pattern, size, e.c.SS), hs: hs}
 		w.files = append(w.files, of)
 		w.verify(of, 0, size, "newfile")
@@ -139,12 +140,17 @@ func (w *worker) step() {
 				w.stats.quotaDenied++
 			case status.Code(err) == codes.ResourceExhausted:
 				w.stats.exhausted++
+			case isInjected(err) && e.dev.concFaultEvery.Load() > 0:
+				// One of this round's device write failures.
+				w.stats.faults++
 			default:
 				w.fail("unexpected-error op=write code="+errClass(err), err.Error())
 				return
 			}
 		}
+		old := m.size
 		m.write(p[:got], off)
+		e.acquired(0, m.size-old, "write")
 		w.verify(of, off-ss-1, off+int64(n)+ss+1, "write")
 	case k < 65:
 		off := w.rng.Int64N(m.size + 2)
@@ -154,9 +160,21 @@ func (w *worker) step() {
 		if w.rng.IntN(2) == 0 {
 			size = w.rng.Int64N(m.size + 1)
 		}
+		if size < m.size {
+			e.releasing(0, m.size-size)
+		}
 		err := of.f.Truncate(size)
 		w.note("truncate f%d size=%d (was %d) -> %s", m.id, size, m.size, errClass(err))
 		if err != nil {
+			if isInjected(err) && size < m.size && e.dev.concFaultEvery.Load() > 0 {
+				// The device failed to zero the tail of the new
+				// last sector: the file keeps its size and quota.
+				w.stats.faults++
+				e.acquired(0, m.size-size, "truncate/fault")
+				m.failedShrink(size)
+				w.verify(of, size-ss-1, m.size, "truncate/fault")
+				return
+			}
 			if !isQuotaErr(err, "File size quota reached") || size <= m.size {
 				w.fail("unexpected-error op=truncate code="+errClass(err), err.Error())
 				return
@@ -166,6 +184,9 @@ func (w *worker) step() {
 		}
 		old := m.size
 		m.truncate(size)
+		if size > old {
+			e.acquired(0, size-old, "truncate")
+		}
 		w.verify(of, min(old, size)-ss-1, max(old, size), "truncate")
 	case k < 90:
 		off := w.rng.Int64N(m.size + 1)
@@ -188,6 +209,7 @@ func (w *worker) step() {
 		}
 	default:
 		w.verify(of, 0, m.size, "before-close")
+		e.releasing(1, m.size)
 		err := of.f.Close()
 		w.note("close f%d -> %s", m.id, errClass(err))
 		w.files = append(w.files[:idx], w.files[idx+1:]...)
@@ -221,6 +243,11 @@ func runConcurrentRound(r *ev.Run, i int) {
 	defer runtime.GOMAXPROCS(prev)
 
 	e := newEnv(r, c, "concurrent", i, rng)
+	if i%2 == 1 {
+		// Failure handling (freeing what a failed write allocated,
+		// returning its quota) concurrently with the other files.
+		e.dev.concFaultEvery.Store(int64(5 + rng.IntN(30)))
+	}
 	workers := make([]*worker, goroutines)
 	var wg sync.WaitGroup
 	start := make(chan struct{})
@@ -242,6 +269,7 @@ func runConcurrentRound(r *ev.Run, i int) {
 					break
 				}
 				w.verify(of, 0, of.m.size, "end-of-round")
+				e.releasing(1, of.m.size)
 				if err := of.f.Close(); err != nil {
 					w.fail("unexpected-error op=close code="+errClass(err), err.Error())
 				}
@@ -252,12 +280,14 @@ func runConcurrentRound(r *ev.Run, i int) {
 	wg.Wait()
 
 	// Quiescent: nothing is open any more.
-	ops, denied, exhausted := 0, 0, 0
+	e.dev.concFaultEvery.Store(0)
+	ops, denied, exhausted, faults := 0, 0, 0, 0
 	h := sha256.New()
 	for _, w := range workers {
 		ops += w.stats.ops
 		denied += w.stats.quotaDenied
 		exhausted += w.stats.exhausted
+		faults += w.stats.faults
 		fmt.Fprintf(h, "%v\n", w.log)
 	}
 	e.sit("concurrent-round")
@@ -267,6 +297,10 @@ func runConcurrentRound(r *ev.Run, i int) {
 	if exhausted > 0 {
 		e.sit("concurrent-exhaustion")
 	}
+	if faults > 0 {
+		e.sit("concurrent-failed-device-write")
+	}
+	e.checkNothingHeld()
 	e.finalProofs()
 	r.Count("concurrent_operations", ops)
 	r.Count("device_reads", int(e.dev.reads.Load()))
